@@ -340,3 +340,50 @@ def check_sibling_sets(ctx, P, rule, builders):
                 loop_ok = any(s.bb in body for body in loops.values())
         ctx.ob(rule + ".F4.subtype-ptr-iff-subtype", fn.name, sub_ok, fn.loc(), "the subtype PTR is built exactly when get_subtype() is Some")
         ctx.ob(rule + ".F4.address-per-addr", fn.name, loop_ok, fn.loc(), "one address record per filtered address (constructor inside the address loop)")
+
+
+# ------------------------------------------------------------------------------------------------
+def check_service_selected_by_resolved_name(ctx, P, rule):
+    """direct (SRV/TXT/ANY/address) questions are matched against the names a service currently goes by: the service
+    handed to add_answer_of_service comes only from a scan of my_services whose predicate compares
+    dns_registry.resolve_name(key) with the question name — never from a lookup by the registered (pre-rename) key"""
+    from .f12 import ret_exprs
+    h = P.one("Zeroconf::handle_query")
+    tr = tracer(P, h)
+    sites = [(b, t) for b, t in h.calls() if name_matches(cname(t), "add_answer_of_service")]
+    ctx.require(len(sites) >= 1, rule + ".anchor", h.name + "|add_answer_of_service", h.loc(), "%d call(s)" % len(sites))
+    for k, (b, t) in enumerate(sites):
+        # the ServiceInfo argument
+        ai = None
+        for i, a in enumerate(t["args"]):
+            ty = (a.get("p") or {}).get("ty", "")
+            if "ServiceInfo" in ty:
+                ai = i
+        if ai is None:
+            ctx.ob(rule + ".selected-by-resolved-name", "%s|add_answer_of_service#%d" % (h.name, k + 1), False, h.loc(b), "no ServiceInfo argument found")
+            continue
+        e = arg_expr(tr, h, b, t, ai)
+        alts = strip(e)
+        bad = []
+        good = 0
+        for a in alts:
+            finds = [x for x in walk(a) if x[0] == "call" and method(strip_generics(x[1])) in ("find", "find_map", "filter")]
+            direct = [x for x in walk(a) if x[0] == "call" and method(strip_generics(x[1])) in ("get", "get_mut", "get_key_value", "index") and
+                      len(x[2]) >= 1 and any(is_field_expr(y, "my_services", "Zeroconf") for y in strip(x[2][0]))]
+            if direct:
+                bad.append("looked up by key: %s" % show(direct[0])[:70])
+                continue
+            ok_find = False
+            for fcall in finds:
+                over = any(is_field_expr(y, "my_services", "Zeroconf") for x in walk(fcall[2][0]) for y in [x]) if fcall[2] else False
+                cls = [x for x in walk(fcall[2][1]) if x[0] == "closure" and x[1] in P.fns] if len(fcall[2]) > 1 and fcall[2][1] is not None else []
+                for c in cls:
+                    for r in ret_exprs(P, P.fns[c[1]]):
+                        if r[0] == "call" and method(strip_generics(r[1])) in ("eq", "ne") and any(x[0] == "call" and name_matches(strip_generics(x[1]), "DnsRegistry::resolve_name") for x in walk(r)):
+                            ok_find = over or ok_find
+            if ok_find:
+                good += 1
+            else:
+                bad.append("not a resolve_name scan: %s" % show(a)[:70])
+        ctx.ob(rule + ".selected-by-resolved-name", "%s|add_answer_of_service#%d" % (h.name, k + 1), good >= 1 and not bad, h.loc(b),
+               "the answering service is found by scanning my_services for resolve_name(key) == question name" if good >= 1 and not bad else "; ".join(bad) or "origin not recognised")
